@@ -26,7 +26,7 @@ import (
 	"github.com/tink-crypto/tink-go/v2/internal/verifharness/kslib"
 )
 
-var flagOnly = flag.String("only", "", "comma separated sections to run: registry,handles,keys,prims,multi,legacy,subtle (default all)")
+var flagOnly = flag.String("only", "", "comma separated sections to run: registry,handles,keys,builders,prims,multi,legacy,subtle (default all)")
 var flagKeys = flag.String("keys", "", "substring filter on pool key names (debugging)")
 
 var logw = os.Stderr
@@ -113,6 +113,7 @@ func child() {
 		}
 		add("handles", func() []job { return e.handleJobs(its) })
 		add("keys", func() []job { return e.keyJobs(its) })
+		add("builders", func() []job { return e.builderJobs(its) })
 		add("prims", func() []job { return e.primJobs(its) })
 		add("multi", func() []job { return e.multiJobs(its) })
 		add("legacy", func() []job { return e.legacyJobs() })
